@@ -1,6 +1,6 @@
 """C11 — molar / mass / volumetric views and unit conversions of a stream always agree.
 Correspondence harness (real streams vs coq/C11/Model.v), generators and the direct oracle."""
-import os, warnings
+import os, warnings, math
 from fractions import Fraction as F
 from vf import q, qlist, clist, cbool, cnat, copt, frac, fr_json
 
@@ -42,9 +42,14 @@ TS = [256., 320., 384., 298.15, 320. + 2. ** -41]
 PS = [65536., 101325., 131072., 65536. + 2. ** -41]
 VALS = [F(0), F(1), F(2), F(1, 2), F(3), F(1, 4), F(8), F(-1), F(1, 1024), F(4096), F(5, 2)]
 
+def jitter(x):
+    return math.floor(x * 2.0 ** 41) % 8
+
 def vstub(gid, ph, T, P):
-    """stand-in molar volume: injective in (chemical, base phase, T, P), dyadic, positive"""
-    return (1 + gid) / 64 + PHC[ph] / 8 + T / 4096 + P / 2 ** 26
+    """stand-in molar volume: injective in (chemical, base phase), strictly increasing in T and P, dyadic, positive, and
+    deliberately discontinuous (the jitter term looks at the bits of T and P around 2^-41) so that a value computed for a
+    temperature or pressure 4.5e-13 away from the current one is visibly different"""
+    return (1 + gid) / 64 + PHC[ph] / 8 + T / 4096 + P / 2 ** 26 + (jitter(T) + jitter(P)) / 16
 
 class VStub:
     def __init__(self, gid, ph):
@@ -136,7 +141,7 @@ def gen_op(rng):
     raise ValueError(k)
 
 def gen_cases(rng, tier):
-    n = 260 if tier == 'quick' else 5000
+    n = 240 if tier == 'quick' else 5000
     cases = []
     for _ in range(n):
         streams = [gen_stream(rng) for _ in range(rng.choice([2, 2, 3]))]
@@ -546,5 +551,15 @@ def finding_key(case, msg):
     what = 'alias' if 'cached views' in msg else ('vol' if 'vol[' in msg or 'vol view' in msg else ('mass' if 'mass' in msg else 'other'))
     return f'C11:{m.group(1) if m else "?"}:{what}'
 
-CORPUS = []
+# minimised histories of the defects found in the unchanged tree (see pending_fixes/C11_*.diff, C13_3); they run first
+CORPUS_NAMES = ['memo_phase', 'memo_tolerance', 'unlink_shared_cache', 'link_shared_cache', 'expand_phases_cache', 'copy_like_phase_indexer', 'reset_chemicals_container']
+CORPUS = [
+    {"streams": [{"kind": "S", "pkg": 0, "phase": "g", "T": 320.0, "P": 65536.0, "flow": [2.0, 0.5, 1.0]}, {"kind": "S", "pkg": 0, "phase": "s", "T": 320.0, "P": 65536.0, "flow": [2.0, 0.5, 1.0]}], "ops": [["read", 0, "vol"], ["phase", 0, "l"], ["read", 0, "vol"]]},   # memo_phase
+    {"streams": [{"kind": "S", "pkg": 0, "phase": "l", "T": 320.0, "P": 65536.0, "flow": [2.0, 0.5, 1.0]}, {"kind": "S", "pkg": 0, "phase": "s", "T": 320.0, "P": 65536.0, "flow": [2.0, 0.5, 1.0]}], "ops": [["read", 0, "vol"], ["T", 0, 320.00000000000045], ["read", 0, "vol"]]},   # memo_tolerance
+    {"streams": [{"kind": "S", "pkg": 0, "phase": "l", "T": 320.0, "P": 65536.0, "flow": [2.0, 0.5, 1.0]}, {"kind": "S", "pkg": 0, "phase": "l", "T": 320.0, "P": 65536.0, "flow": [0.0, 0.0, 0.0]}], "ops": [["link", 1, 0, True, True, True], ["unlink", 0], ["read", 1, "mass"], ["set", 0, "mol", 0, "A_", 8.0], ["read", 0, "mass"]]},   # unlink_shared_cache
+    {"streams": [{"kind": "S", "pkg": 0, "phase": "l", "T": 320.0, "P": 65536.0, "flow": [2.0, 0.5, 1.0]}, {"kind": "S", "pkg": 0, "phase": "l", "T": 320.0, "P": 65536.0, "flow": [0.0, 3.0, 0.0]}, {"kind": "S", "pkg": 0, "phase": "s", "T": 320.0, "P": 65536.0, "flow": [8.0, 3.0, 0.0]}], "ops": [["link", 2, 1, True, True, True], ["link", 1, 0, True, True, False], ["read", 1, "mass"], ["read", 2, "mass"]]},   # link_shared_cache
+    {"streams": [{"kind": "M", "pkg": 0, "phases": ["g", "l"], "T": 320.0, "P": 65536.0, "flow": [[1.0, 2.0, 0.0], [0.0, 0.5, 3.0]]}, {"kind": "S", "pkg": 0, "phase": "s", "T": 320.0, "P": 65536.0, "flow": [2.0, 0.5, 1.0]}], "ops": [["read", 0, "mass"], ["copy_like", 0, 1], ["read", 0, "mass"]]},   # expand_phases_cache
+    {"streams": [{"kind": "M", "pkg": 0, "phases": ["L", "l"], "T": 320.0, "P": 65536.0, "flow": [[1.0, 2.0, 0.0], [0.0, 0.5, 3.0]]}, {"kind": "S", "pkg": 0, "phase": "s", "T": 320.0, "P": 65536.0, "flow": [2.0, 0.5, 1.0]}], "ops": [["copy_like", 0, 1], ["read", 0, "mol"]]},   # copy_like_phase_indexer
+    {"streams": [{"kind": "M", "pkg": 1, "phases": ["g", "l"], "T": 320.0, "P": 65536.0, "flow": [[1.0, 2.0, 0.0, 1.0], [0.0, 0.5, 0.0, 3.0]]}, {"kind": "S", "pkg": 0, "phase": "s", "T": 320.0, "P": 65536.0, "flow": [2.0, 0.5, 1.0]}], "ops": [["read", 0, "mass"], ["rtrip", 0, 0], ["read", 0, "mass"]]},   # reset_chemicals_container
+]
 WITNESSES = []
